@@ -279,7 +279,13 @@ func (r *WALReader) ReadHeader() error {
 		return fmt.Errorf("unsupported wal version: %d", version)
 	}
 
-	r.pageSize = binary.BigEndian.Uint32(hdr[8:])
+	// Verify page size is a power of two between 512 and 64K, as SQLite does.
+	pageSize := binary.BigEndian.Uint32(hdr[8:])
+	if pageSize < 512 || pageSize > 65536 || pageSize&(pageSize-1) != 0 {
+		return fmt.Errorf("invalid wal page size: %d", pageSize)
+	}
+
+	r.pageSize = pageSize
 	r.seq = binary.BigEndian.Uint32(hdr[12:])
 	r.salt1 = binary.BigEndian.Uint32(hdr[16:])
 	r.salt2 = binary.BigEndian.Uint32(hdr[20:])
